@@ -72,6 +72,16 @@ Proof.
 Qed.
 Print Assumptions C12_device_once.
 
+(** ... and nothing but .device selects or alters it: every other directive (.csegsize, .org, #pragma, .define, .equ, ... - all of
+    them except .include, which hands over to another file) leaves the selected device, hence the capacities the build is held to
+    and reports, exactly as it was. *)
+Require Import AvraV.Proofs.SpliceProofs.
+Theorem C12_only_device_selects : forall fuel inc d ops st line st' ni,
+  d <> DDevice -> d <> DInclude ->
+  directive_parse fuel inc d ops st line = Ok (st', ni) -> dev (pcx st') = dev (pcx st).
+Proof. exact directive_keeps_device. Qed.
+Print Assumptions C12_only_device_selects.
+
 (** Every shipped part-definition file whose device is in the table declares the figures the table
     enforces (regenerated from includes/*def.inc and from the table on every run). *)
 Definition agrees (o : option N) (v : N) : bool := match o with Some x => x =? v | None => true end.
